@@ -626,8 +626,18 @@ pub async fn handle_changes(
             // but we need to drain it to free up concurrency
             res = join_set.join_next(), if !join_set.is_empty() => {
                 debug!("processed multiple changes concurrently");
-                if let Some(Ok(Err(e))) = res {
-                    error!("could not process multiple changes: {e}");
+                match res {
+                    Some(Ok(Ok(()))) | None => {}
+                    Some(Ok(Err(e))) => {
+                        error!("could not process multiple changes: {e}");
+                        // the batch's changesets are lost: forget we saw them so that they are
+                        // accepted when they are offered again
+                        seen.clear();
+                    }
+                    Some(Err(e)) => {
+                        error!("processing multiple changes did not complete: {e}");
+                        seen.clear();
+                    }
                 }
                 continue;
             },
